@@ -194,10 +194,15 @@ func readICCP(r binary.Reader, chunkLen uint32) ([]byte, error) {
 		return nil, errors.New("no expected ICCP chunk")
 	}
 
-	// Extract ICCP.
-	data := make([]byte, ch.Length)
-	if _, err := io.ReadFull(r, data); err != nil {
+	// Extract ICCP. The declared length is not trusted for an up-front
+	// allocation: memory grows only with the bytes actually present.
+	buf := bytes.Buffer{}
+	if _, err := io.CopyN(&buf, r, int64(ch.Length)); err != nil {
 		return nil, err
+	}
+	data := buf.Bytes()
+	if data == nil {
+		data = []byte{}
 	}
 	return data, nil
 }
